@@ -14,6 +14,15 @@ pub fn vf_runtime_assert(c: bool)
     ensures c,
 { assert!(c) }
 
+// ---- R11: build configurations.  `debug_assert!(c)` must be PROVED (it panics in debug builds) but may not be ASSUMED
+// afterwards (it does not run in release builds); code under `#[cfg(debug_assertions)]` / `cfg!(debug_assertions)` is
+// verified in both configurations through an arbitrary boolean.
+pub fn vf_debug_assert(c: bool)
+    requires c, //[C01:debug_assert.holds]
+{ }
+#[verifier::external_body]
+pub fn vf_cfg_debug_assertions() -> bool { cfg!(debug_assertions) }
+
 // ---- big-endian integers over octet sequences (consumption style: the first octets of s) ------
 // The bodies are closed: outside this module only the lemmas of `group_be` are available, which keeps
 // the solver away from the div/mod arithmetic.
